@@ -1035,6 +1035,17 @@ func (tb *TB) Expand(t *Term, depth int) *Term {
 			fmt.Sscanf(t.Sym, "%d", &idx)
 			ct = t.Args[0]
 		}
+		if ct.Op == "calldyn" && len(ct.Args) > 0 && ct.Args[0].Op == "closure" {
+			if mc, ok := ct.Args[0].Val.(*ssa.MakeClosure); ok {
+				cf := mc.Fn.(*ssa.Function)
+				res := tb.Results(cf, ct.Args[1:], ct.Args[0].Args, i+1)
+				if idx >= len(res) {
+					return t
+				}
+				t = res[idx]
+				continue
+			}
+		}
 		if ct.Op != "call" {
 			return t
 		}
